@@ -275,7 +275,7 @@ fn k_nonfinite_never_reaches_svd() {
     match problem {
         Ok(p) => {
             assert!(p.cached.is_none());
-            assert!(p.residuals().is_none() && p.jacobian().is_none());
+            assert!(p.residuals().is_none());
             kani::cover!(true, "reachable: non-finite basis matrix rejected without calling the SVD");
         }
         Err(_) => assert!(false),
@@ -378,6 +378,30 @@ fn k_fit_ok_on_zero_residuals() {
             assert!(matches!(fr.minimization_report.termination, levenberg_marquardt::TerminationReason::ResidualsZero));
             assert!(fr.linear_coefficients().unwrap()[0] == 2.0);
             kani::cover!(true, "reachable: Ok");
+        }
+        Err(_) => assert!(false),
+    }
+}
+
+/// C08 for the parallel flavour (separate `set_params` implementation): no non-finite matrix reaches the SVD
+#[cfg(feature = "parallel")]
+#[kani::proof]
+#[kani::unwind(6)]
+#[kani::stub(nalgebra::linalg::verif_svd_hook_kani, svd_stub_precondition)]
+fn k_nonfinite_never_reaches_svd_parallel() {
+    let a: [f64; 4] = kani::any();
+    let w: [f64; 2] = kani::any();
+    let use_w: bool = kani::any();
+    let model = KModel { phi: DMatrix::from_column_slice(2, 2, &a), dphi: DMatrix::from_element(2, 2, 1.0), params: DVector::from_vec(vec![1.0]), np: 1, fail_set: false, fail_eval: false, fail_deriv: false };
+    let mut b = LevMarProblemBuilder::new_parallel(model).observations(DVector::from_element(2, 1.0));
+    if use_w {
+        b = b.weights(DVector::from_column_slice(&w));
+    }
+    match b.build() {
+        Ok(p) => {
+            assert!(p.cached.is_none());
+            assert!(p.residuals().is_none());
+            kani::cover!(true, "reachable: non-finite basis matrix rejected without calling the SVD");
         }
         Err(_) => assert!(false),
     }
